@@ -98,13 +98,15 @@ SPECS = {
     "C20": dict(modules=["Ovldverif.Props.C20"], streams=["table_rich", "fn", "dep_f"], oracle="C20"),
     "C09": dict(modules=["Ovldverif.Props.C09"], streams=["rewrite", "rewrite_struct"], oracle="C09"),
     "C16": dict(modules=["Ovldverif.Props.C16"], streams=["graph"], oracle="C16"),
-    "C18": dict(modules=["Ovldverif.Props.C18"], streams=["build"], oracle="C18"),
+    "C18": dict(modules=["Ovldverif.Props.C18", "Ovldverif.Props.C18Resolve"], streams=["build", "table_cut", "table_cut_rich"], oracle="C18"),
     "C08": dict(modules=["Ovldverif.Props.C08"], streams=["graph", "graph_deep"], oracle="C08"),
 }
 
 STREAMS = {
     "table_static": ("check_table", "worker", lambda seed, n: (seed, n, True), "D"),
     "table_rich": ("check_table", "worker", lambda seed, n: (seed + 7, n, False), "D"),
+    "table_cut": ("check_table", "worker", lambda seed, n: (seed + 11, n, True, True), "D"),
+    "table_cut_rich": ("check_table", "worker", lambda seed, n: (seed + 13, n, False, True), "D"),
     "fn": ("check_fn", "worker", lambda seed, n: (seed + 11, n, {"static_only": False}), "F"),
     "fn_static": ("check_fn", "worker", lambda seed, n: (seed + 13, n, {"static_only": True}), "F"),
     "fn_rich": ("check_fn", "worker", lambda seed, n: (seed + 17, n, {"static_only": False, "bodies": True}), "F"),
